@@ -148,8 +148,8 @@ def cosine_case(sa, sb, axis, eps, seed):
 def enum_conv1d(tier):
     """the quantifier's conv1d space: batch 1..2, Cin/Cout 1..4 with every common divisor as groups, L 1..7,
     K 1..3, stride 1..3, padding 0..2, dilation 1..2, bias on/off; all combinations with positive output size.
-    quick keeps every 7th point of the raw product (7 is coprime to every axis period, so each parameter value
-    and each pair of values of the inner axes still occurs)."""
+    quick keeps a deterministic pseudo-random 1/7 of the raw product (hash of the point index, so that different
+    channel configurations keep different (L,K,s,p,d,bias) points)."""
     step = 1 if tier == "thorough" else 7
     idx = -1
     for N, Cin, Cout in itertools.product((1, 2), range(1, 5), range(1, 5)):
@@ -158,7 +158,7 @@ def enum_conv1d(tier):
                 continue
             for L, K, s, p, d, bias in itertools.product(range(1, 8), (1, 2, 3), (1, 2, 3), (0, 1, 2), (1, 2), (False, True)):
                 idx += 1
-                if idx % step:
+                if (mix(idx) >> 11) % step:
                     continue
                 if conv_out_extent(L, K, s, p, d) <= 0:
                     continue
@@ -168,7 +168,7 @@ def enum_conv1d(tier):
                 pv = spell((p,), 0, h & 2)
                 dv = spell((d,), 1, h & 4)
                 gd = (G == 1 and sv is None and pv is None and dv is None)
-                yield conv_case(1, N, Cin, Cout, G, [L], [K], sv, pv, dv, bias, idx, groups_default=gd, ev=(h % 4 == 0))
+                yield conv_case(1, N, Cin, Cout, G, [L], [K], sv, pv, dv, bias, idx, groups_default=gd, ev=((h >> 5) % 4 == 0))
 
 
 def rand_conv2d(rnd, seed, ev=False):
@@ -402,7 +402,7 @@ class C17(Prop):
     id = "C17"
     servers = ["nn"]
     rule = ("case = one nn routine on integer-valued data, executed lazily (shape + every element; every 4th enumerated case "
-            "also through eval). conv1d: the quantifier's whole space (quick: every 7th point); conv2d: fixed-seed sample of the "
+            "also through eval). conv1d: the quantifier's whole space (quick: a fixed pseudo-random 1/7 of it); conv2d: fixed-seed sample of the "
             "product space; pooling: H,W 1..7 x kernel 1..3 x stride 1..3 x ceil_mode (quick: every 5th point); softmax/softmin: "
             "dims 1..4 x every axis; norms on dim 2..4 inputs; linear/bilinear/pairwise_distance/cosine_similarity. "
             "non-trivial: conv/pool = at least two of {stride>1, padding>0, dilation>1, groups>1, ceil-mode overhang}; softmax = "
@@ -423,7 +423,7 @@ class C17(Prop):
                 "pool2d H,W1..7 x k1..3 x s1..3 x ceil x {max,avg} (%s); softmax/softmin dims1..3 ext1..%d + dim4 ext1..3, all axes; norms dim2..4 ext1..3; "
                 "linear/bilinear/pairwise_distance/cosine_similarity small shapes%s"
                 % (("all points", "all points", 4, "") if tier == "thorough" else
-                   ("every 7th point", "every 5th point", 3, " (quick: distances every 2nd point, dim-4 softmax every 3rd, dim-4 group_norm every 4th)")))
+                   ("a fixed 1/7 of the points", "every 5th point", 3, " (quick: distances every 2nd point, dim-4 softmax every 3rd, dim-4 group_norm every 4th)")))
 
     def exhaustive(self, tier):
         def thin(g, k):
